@@ -68,6 +68,8 @@ def gen_params(rng, cls: str, force: Optional[dict] = None) -> dict:
         while True:
             L = length(rng)
             angle = signed(rng, 1e-3, 1.0, 0.15)
+            if rng.random() < 0.12:      # bends of 90 degrees and more (the second branch of the Bmad-X bend body)
+                angle = float(rng.uniform(1.6, 2.6)) * (1.0 if rng.random() < 0.5 else -1.0)
             k1 = signed(rng, 0.05, 10.0, 0.5)
             hx = 0.0 if L == 0.0 else angle / L
             kx2 = (k1 if k1 != 0 else 1e-12) + hx * hx
@@ -95,7 +97,7 @@ def gen_params(rng, cls: str, force: Optional[dict] = None) -> dict:
     elif cls == "BPM":
         p.update(active=bool(rng.random() < 0.5))
     elif cls == "Screen":
-        p.update(active=bool(rng.random() < 0.5), blocking=False)
+        p.update(active=bool(rng.random() < 0.5), blocking=False, mx=signed(rng, 1e-4, 2e-3, 0.5), my=signed(rng, 1e-4, 2e-3, 0.5))
     elif cls == "Aperture":
         p.update(xmax=pick(rng, float("inf"), 1e-3, 5e-4, 2e-3), ymax=pick(rng, float("inf"), 1e-3, 5e-4, 2e-3),
                  shape=pick(rng, "rectangular", "elliptical"), active=bool(rng.random() < 0.7))
@@ -165,7 +167,8 @@ def build(p: dict, dtype=F64, name: Optional[str] = None, **extra):
         return cheetah.BPM(is_active=p.get("active", False), **({"name": name} if name else {}), **extra)
     if c == "Screen":
         return cheetah.Screen(resolution=(40, 30), pixel_size=tt([1e-4, 1e-4]), is_active=p.get("active", False),
-                              is_blocking=p.get("blocking", False), **kw, **extra)
+                              is_blocking=p.get("blocking", False), misalignment=tt([p.get("mx", 0.0), p.get("my", 0.0)]),
+                              **kw, **extra)
     if c == "Aperture":
         return cheetah.Aperture(x_max=tt(p.get("xmax", float("inf"))), y_max=tt(p.get("ymax", float("inf"))),
                                 shape=p.get("shape", "rectangular"), is_active=p.get("active", True), **kw, **extra)
